@@ -313,8 +313,8 @@ def run(tier="quick"):
                         for lv in labels:
                             entries.append((lv, X.const_val(q["val"]), q))
                         break
-                if j_ < len(stmts) and stmts[j_].get("k") == "break":
-                    labels = []
+                if (j_ < len(stmts) and stmts[j_].get("k") == "break") or (seq and seq[-1].get("k") in ("return", "continue", "goto")):
+                    labels = []         # the case ends here: later labels do not fall into it
                 i_ = j_
                 continue
             i_ += 1
